@@ -51,8 +51,14 @@ impl SingleExecMatcher {
     }
 }
 
+/// What find has written so far must not come out after the output of the command it is
+/// about to run (they usually share standard output).
+fn flush_output(matcher_io: &mut MatcherIO) {
+    let _ = matcher_io.deps.get_output().borrow_mut().flush();
+}
+
 impl Matcher for SingleExecMatcher {
-    fn matches(&self, file_info: &WalkEntry, _: &mut MatcherIO) -> bool {
+    fn matches(&self, file_info: &WalkEntry, matcher_io: &mut MatcherIO) -> bool {
         let mut command = Command::new(&self.executable);
         let path_to_file = if self.exec_in_parent_dir {
             if let Some(f) = file_info.path().file_name() {
@@ -84,10 +90,11 @@ impl Matcher for SingleExecMatcher {
                 }
             }
         }
+        flush_output(matcher_io);
         match command.status() {
             Ok(status) => status.success(),
             Err(e) => {
-                writeln!(&mut stderr(), "Failed to run {}: {}", self.executable, e).unwrap();
+                let _ = writeln!(&mut stderr(), "Failed to run {}: {}", self.executable, e);
                 false
             }
         }
@@ -122,13 +129,25 @@ impl MultiExecMatcher {
         })
     }
 
-    fn new_command(&self) -> argmax::Command {
+    /// A command holding the fixed arguments, or None (after reporting it) when not even
+    /// those fit next to the environment.
+    fn new_command(&self, matcher_io: &mut MatcherIO) -> Option<argmax::Command> {
         let mut command = argmax::Command::new(&self.executable);
-        command.try_args(&self.args).unwrap();
-        command
+        if let Err(e) = command.try_args(&self.args) {
+            let _ = writeln!(
+                &mut stderr(),
+                "Cannot fit the arguments of {}: {}",
+                self.executable,
+                e
+            );
+            matcher_io.set_exit_code(1);
+            return None;
+        }
+        Some(command)
     }
 
     fn run_command(&self, command: &mut argmax::Command, matcher_io: &mut MatcherIO) {
+        flush_output(matcher_io);
         match command.status() {
             Ok(status) => {
                 if !status.success() {
@@ -136,7 +155,7 @@ impl MultiExecMatcher {
                 }
             }
             Err(e) => {
-                writeln!(&mut stderr(), "Failed to run {}: {}", self.executable, e).unwrap();
+                let _ = writeln!(&mut stderr(), "Failed to run {}: {}", self.executable, e);
                 matcher_io.set_exit_code(1);
             }
         }
@@ -154,8 +173,13 @@ impl Matcher for MultiExecMatcher {
         } else {
             file_info.path().to_path_buf()
         };
-        let mut command = self.command.borrow_mut();
-        let command = command.get_or_insert_with(|| self.new_command());
+        let mut slot = self.command.borrow_mut();
+        if slot.is_none() {
+            *slot = self.new_command(matcher_io);
+        }
+        let Some(command) = slot.as_mut() else {
+            return true;
+        };
 
         // Build command, or dispatch it before when it is long enough.
         if command.try_arg(&path_to_file).is_err() {
@@ -176,16 +200,17 @@ impl Matcher for MultiExecMatcher {
             self.run_command(command, matcher_io);
 
             // Reset command status.
-            *command = self.new_command();
-            if let Err(e) = command.try_arg(&path_to_file) {
-                writeln!(
-                    &mut stderr(),
-                    "Cannot fit a single argument {}: {}",
-                    &path_to_file.to_string_lossy(),
-                    e
-                )
-                .unwrap();
-                matcher_io.set_exit_code(1);
+            *slot = self.new_command(matcher_io);
+            if let Some(command) = slot.as_mut() {
+                if let Err(e) = command.try_arg(&path_to_file) {
+                    let _ = writeln!(
+                        &mut stderr(),
+                        "Cannot fit a single argument {}: {}",
+                        &path_to_file.to_string_lossy(),
+                        e
+                    );
+                    matcher_io.set_exit_code(1);
+                }
             }
         }
         true
